@@ -36,7 +36,7 @@ From RU Require Import Base.Prelude Base.Utf8 Base.Utf8Facts Model.AsciiSet Gen.
   Proofs.C03_WF Proofs.C06_List Proofs.C06_WFI Proofs.C06_Tail
   Proofs.C08_Input Proofs.C08_Simple Proofs.C08_Contain Proofs.C08_NoAuth Proofs.C08_Absolute Proofs.C08_Relative Proofs.C08_RelEval
   Proofs.C08_RelPath Proofs.C08_RelJoin Proofs.C08_RelMr Proofs.C08_RelLaw Proofs.C08_RelCanon Proofs.C08_RelNoAuth
-  Proofs.C02_AuthParts Proofs.C02_Auth Proofs.C02_AuthSp Proofs.C02_AuthMain Proofs.C08_AbsNonfile Proofs.C08_RelAuth Proofs.C08_RelRecog.
+  Proofs.C02_AuthParts Proofs.C02_Auth Proofs.C02_AuthSp Proofs.C02_AuthMain Proofs.C08_AbsNonfile Proofs.C08_RelAuth Proofs.C08_RelRecog Proofs.C08_Parsed.
 From RU Require Properties.C02.
 Open Scope N_scope.
 Open Scope list_scope.
@@ -369,7 +369,8 @@ Proof. vm_compute. repeat split. Qed.
    the record that has the base's stored offsets.  Hypotheses on the host functions as in C02 (HostRT + host_above;
    HostOK implies HostRT).
    What is STILL MISSING towards C08_relative_statement:
-     (a) base and target both with scheme "file" (if only one is a file URL make_relative answers None);
+     (a) base and target both with scheme "file" (if only one is a file URL make_relative answers None -
+         C08_relative_nonfile below asks for a non-file BASE only, as a premise on the record);
      (b) records produced by join or by the setters rather than by a no-base parse - for those that are in one of
          C02's three hierarchical canonical forms see C08_relative_canon_forms below;
      (c) the statement assumes HostOK only, the theorem also host_above (HostOK does not say that displayed
@@ -396,6 +397,36 @@ Theorem C08_relative_parsed_HostOK : forall dbg hp hpo hd, HostOK hp hpo hd -> h
   join dbg hp hpo hd b r = POk t.
 Proof. intros dbg hp hpo hd HOK HAb bi ti b t r. exact (relative_parsed_HostOK dbg hp hpo hd bi ti b t r HOK HAb). Qed.
 Print Assumptions C08_relative_parsed_HostOK.
+
+(* THE STATEMENT ITSELF for every base that is not a file URL: the class premise read off the record (a parse
+   result carries the scheme the parser read, Proofs/C17_Scheme.v; make_relative answers Some only for equal
+   schemes, so nothing is asked of the target).  C08_relative_statement = this theorem without the premise
+   st_is_file (b_st b) = false and with HostOK alone in place of HostRT + host_above. *)
+Theorem C08_relative_nonfile : forall dbg hp hpo hd, HostRT hp hpo hd -> host_above hp hpo hd ->
+  forall b t r, parsed dbg hp hpo hd b -> parsed dbg hp hpo hd t -> st_is_file (b_st b) = false ->
+  mr_ok b t = true -> make_relative dbg b t = Some (Some r) ->
+  join dbg hp hpo hd b r = POk t.
+Proof.
+  intros dbg hp hpo hd HRT HAb b t r (bi & Hub & Pb) (ti & Hut & Pt) Hnf Hok Hmr.
+  exact (relative_parsed_nonfile dbg hp hpo hd HRT HAb bi ti b t r Hub Hut Pb Pt Hnf Hok Hmr).
+Qed.
+Check C08_relative_nonfile : forall dbg hp hpo hd, HostRT hp hpo hd -> host_above hp hpo hd ->
+  forall b t r,
+  (exists input, usv_list input /\ parse_url dbg hp hpo hd None None input = POk b) ->
+  (exists input, usv_list input /\ parse_url dbg hp hpo hd None None input = POk t) ->
+  st_is_file (scheme_type_of (nfirstn (scheme_end b) (ser b))) = false ->
+  mr_ok b t = true -> make_relative dbg b t = Some (Some r) ->
+  parse_url dbg hp hpo hd None (Some b) r = POk t.
+Print Assumptions C08_relative_nonfile.
+(* likewise the absolute law for every parse result whose scheme is not file, against every base record *)
+Theorem C08_absolute_parsed_nonfile : forall dbg hp hpo hd, HostRT hp hpo hd -> host_above hp hpo hd ->
+  forall u b, parsed dbg hp hpo hd u -> st_is_file (b_st u) = false ->
+  join dbg hp hpo hd b (utf8_lossy (ser u)) = POk u.
+Proof.
+  intros dbg hp hpo hd HRT HAb u b (input & Hu & Hp) Hnf.
+  exact (absolute_parsed_nonfile dbg hp hpo hd HRT HAb b input u Hu Hp Hnf).
+Qed.
+Print Assumptions C08_absolute_parsed_nonfile.
 
 (* ... and for records of ANY origin (parser, join, setters) that are in one of C02's three hierarchical canonical
    forms (Properties/C02.v: canon_noauth, canon_auth .. STNotSpecial, canon_special) *)
